@@ -172,6 +172,26 @@ def np_unique(interp, args, kwargs, node):
     ctx.assume(s1 == n, "extern:numpy.unique(return_counts): multiplicities sum to the length")
     ctx.assume(s2 - s1 == coinc_sym(interp, arr),
                "lemma:L-count (Lean) sum_v m_v(m_v-1) = number of ordered coinciding pairs of distinct positions")
+    if isinstance(ek, (types_IntT, vec.T_RealT)):
+        s_, t_ = z3.Int("s!u"), z3.Int("t!u")
+        va = lambda q: vals.content.at(q).term
+        ctx.assume(z3.ForAll([s_, t_], z3.Implies(z3.And(0 <= s_, s_ < t_, t_ < nu), va(s_) < va(t_))),
+                   "extern:numpy.unique returns the distinct values in increasing order")
+        upos = ctx.fresh_fun("uniq_pos", z3.IntSort(), z3.IntSort())
+        ctx.assume(z3.ForAll([t_], z3.Implies(z3.And(0 <= t_, t_ < nu),
+                                              z3.And(0 <= upos(t_), upos(t_) < n, arr.content.at(upos(t_)).term == va(t_))),
+                             patterns=[upos(t_)]), "extern:numpy.unique returns values that occur in its argument")
+        src = getattr(arr, "sub_of", None)
+        if src is not None and not getattr(arr, "with_replacement", True) and getattr(src, "blocks", None) is not None:
+            # L-inj-count (Lean: Lemmas/InjCount.lean): positions drawn WITHOUT replacement are pairwise distinct, so a value is
+            # drawn at most as often as it occurs in the source; in concatenate(repeat(v_k, c_k)) with pairwise distinct v_k
+            # (v_k = k here) value v_k occurs exactly c_k times
+            m_, start_, block_, cnt_, val_ = src.blocks
+            kk = z3.Int("k!canon")
+            if z3.eq(z3.simplify(val_(kk).term), kk):
+                ca = lambda q: cnt.content.at(q).term
+                ctx.assume(z3.ForAll([t_], z3.Implies(z3.And(0 <= t_, t_ < nu), ca(t_) <= cnt_(va(t_))), patterns=[ca(t_)]),
+                           "lemma:L-inj-count (Lean) a value is drawn without replacement at most as often as it occurs in the source")
     ctx.memo[("uniq", sid)] = (vals, cnt)
     return VTuple([interp.born(vals), interp.born(cnt)]) if want_counts else vals
 
@@ -415,4 +435,205 @@ def np_random_choice(interp, args, kwargs, node):
     r = VList(SymSeq(m, lambda k: at(idx(k)), ek), "ndarray")
     r.sub_of, r.sub_idx, r.with_replacement = a, idx, not without
     r.sid = f"choice({getattr(a, 'sid', '?')})@L{line}"
+    return interp.born(r)
+
+
+# ---- point-wise numeric functions, random numbers, masks ------------------------------------------------------
+log_f = z3.Function("ln", z3.RealSort(), z3.RealSort())
+
+
+def _ln(interp, x):
+    ctx = interp.ctx
+    if ("ax", "ln") not in ctx.axioms_added:
+        ctx.axioms_added.add(("ax", "ln"))
+        u = z3.Real("u!ln")
+        ctx.assume_global(z3.And(log_f(z3.RealVal(1)) == 0,
+                                 z3.ForAll([u], z3.And(z3.Implies(u > 1, log_f(u) > 0), z3.Implies(z3.And(u > 0, u < 1), log_f(u) < 0)),
+                                           patterns=[log_f(u)])),
+                          "float-as-real: numpy.log is the real natural logarithm (uninterpreted; ln 1 = 0, ln x > 0 iff x > 1 for x > 0)")
+    return log_f(x)
+
+
+def np_log(interp, args, kwargs, node):
+    v = args[0]
+    if isinstance(v, (VInt, VReal)):
+        return VReal(_ln(interp, to_real(v)), True)
+    if isinstance(v, VList) and isinstance(v.content, SymSeq):
+        return vec.pointwise(interp, v.content.length, lambda k: VReal(_ln(interp, to_real(v.content.at(k))), True))
+    return interp.born(E.opaque(interp, "numpy.log", args, kwargs, "ndarray"))
+
+
+E.EXTERNS["numpy.log"] = np_log
+_np_floor_scalar = E.EXTERNS["numpy.floor"]
+
+
+def np_floor2(interp, args, kwargs, node):
+    v = args[0]
+    if isinstance(v, VList) and isinstance(v.content, SymSeq):
+        interp.ctx.assumed.add("extern:numpy.ceil / numpy.floor are the mathematical ceiling / floor (float-as-real)")
+        return vec.pointwise(interp, v.content.length, lambda k: VReal(z3.ToReal(z3.ToInt(to_real(v.content.at(k)))), True))
+    return _np_floor_scalar(interp, args, kwargs, node)
+
+
+E.EXTERNS["numpy.floor"] = np_floor2
+
+
+@extern("numpy.random.rand")
+def np_random_rand(interp, args, kwargs, node):
+    n = to_int(args[0])
+    ctx = interp.ctx
+    f = ctx.fresh_fun("rand", z3.IntSort(), z3.RealSort())
+    k = z3.Int("k!r")
+    ctx.assume(z3.ForAll([k], z3.And(f(k) >= 0, f(k) < 1), patterns=[f(k)]),
+               "extern:numpy.random.rand(n) returns n floats in [0, 1) (uniformity assumed, not decided)")
+    if not interp.spec_mode:
+        short = (interp.current_qualname or "").replace("pyrepseq.", "")
+        ctx.oblige(f"{short}/call-pre[numpy.random.rand.nonnegative]@L{getattr(node, 'lineno', '?')}", n >= 0, kind="call-pre",
+                   line=getattr(node, "lineno", None))
+    return vec.pointwise(interp, n, lambda j: VReal(f(j), True))
+
+
+def _mask_index(interp, base, idx, node):
+    """a[a >= t] : the sub-vector of the entries satisfying the mask (order kept)"""
+    if isinstance(base, VList) and base.kind == "ndarray" and isinstance(idx, VObj) and idx.tag == "mask" and idx.of is base:
+        return filtered_vector(interp, base, idx.opn, idx.bound)
+    return None
+
+
+def filtered_vector(interp, base, opn, bound):
+    ctx = interp.ctx
+    if not hasattr(ctx, "memo"):
+        ctx.memo = {}
+    ff = getattr(base, "filter_key", None)
+    if ff is not None and ff == (opn, z3.simplify(to_real(bound)).sexpr()):
+        return base         # filtering again with the same mask changes nothing (every entry already passes)
+    key = ("filter", getattr(base, "sid", id(base)), opn, z3.simplify(to_real(bound)).sexpr())
+    if key in ctx.memo:
+        return ctx.memo[key]
+    sid = f"{getattr(base, 'sid', 'v')}[{opn} {z3.simplify(to_real(bound))}]"
+    n = z3.Int(f"len[{sid}]")
+    ek = base.content.elem_kind
+    f = z3.Function(f"at[{sid}]", z3.IntSort(), ek.sort())
+    j = z3.Int("j!f")
+    cmpf = {"GtE": lambda x, y: x >= y, "Gt": lambda x, y: x > y, "LtE": lambda x, y: x <= y, "Lt": lambda x, y: x < y}[opn]
+    ctx.assume(z3.And(n >= 0, n <= base.content.length), "extern:numpy boolean-mask indexing a[mask] keeps exactly the entries where the mask holds, in order")
+    fj = ek.wrap(f(j))
+    ctx.assume(z3.ForAll([j], z3.Implies(z3.And(0 <= j, j < n), cmpf(to_real(fj), to_real(bound))), patterns=[f(j)]))
+    r = VList(SymSeq(n, lambda k: ek.wrap(f(k)), ek), "ndarray")
+    r.sid = sid
+    r.vec_name = sid
+    r.filtered_from = base
+    r.filter_key = (opn, z3.simplify(to_real(bound)).sexpr())
+    r.pointwise = True
+    r.poly = None
+    interp.born(r)
+    ctx.memo[key] = r
+    return r
+
+
+E.HOOKS["index"].insert(0, _mask_index)
+
+
+def _mask_cmp(interp, opn, a, b, node):
+    if isinstance(a, VList) and a.kind == "ndarray" and isinstance(a.content, SymSeq) and isinstance(b, (VInt, VReal)) \
+            and opn in ("GtE", "Gt", "LtE", "Lt") and isinstance(a.content.elem_kind, (vec.T_IntT, vec.T_RealT)):
+        m = VObj("mask")
+        m.of, m.opn, m.bound = a, opn, b
+        return m
+    return None
+
+
+E.HOOKS["cmp"].insert(0, _mask_cmp)
+
+
+@S.spec("filtered")
+def _filtered(interp, args, kwargs, node):
+    """the entries of vector c that are >= cmin (in order)"""
+    c, cmin = args
+    return filtered_vector(interp, as_ndarray(interp, c), "GtE", cmin)
+
+
+@S.spec("ln")
+def _ln_spec(interp, args, kwargs, node):
+    return np_log(interp, args, kwargs, node)
+
+
+# ---- repeat / concatenate: "unpacking" a count vector into one entry per item --------------------------------
+
+@extern("numpy.repeat")
+def np_repeat(interp, args, kwargs, node):
+    x, cnt = args[0], args[1]
+    if isinstance(x, VList) and isinstance(x.content, ConcreteSeq) and len(x.content.items) == 1:
+        x = x.content.items[0]
+    if not isinstance(x, (VInt, VReal)) or not isinstance(cnt, VInt):
+        raise Unsupported("np.repeat argument form")
+    if not interp.spec_mode:
+        short = (interp.current_qualname or "").replace("pyrepseq.", "")
+        interp.ctx.oblige(f"{short}/call-pre[numpy.repeat.count>=0]@L{getattr(node, 'lineno', '?')}", cnt.term >= 0, kind="call-pre",
+                          line=getattr(node, "lineno", None))
+    return VObj("np_repeat", None, {"value": x, "count": cnt})
+
+
+_asarray_prev = E.EXTERNS["numpy.array"]
+
+
+def _np_array_scalar(interp, args, kwargs, node):
+    if isinstance(args[0], (VInt, VReal)):
+        return args[0]                  # a 0-d array behaves as its scalar in the operations modelled here
+    return _asarray_prev(interp, args, kwargs, node)
+
+
+E.EXTERNS["numpy.array"] = E.EXTERNS["numpy.asarray"] = _np_array_scalar
+
+
+@extern("numpy.concatenate")
+def np_concatenate(interp, args, kwargs, node):
+    """concatenate([repeat(v_k, c_k) for k < m]): a vector of length sum c_k in which block k (positions start(k) .. start(k+1)-1)
+    holds v_k.  Modelled with a start-offset function (the prefix sums of c)."""
+    parts = args[0]
+    ctx = interp.ctx
+    if not (isinstance(parts, VList) and isinstance(parts.content, SymSeq)):
+        raise Unsupported("np.concatenate argument form")
+    m = parts.content.length
+    probe = parts.content.at(z3.Int("k!probe"))
+    if not (isinstance(probe, VObj) and probe.tag == "np_repeat"):
+        raise Unsupported("np.concatenate of something else than repeated scalars")
+    if not interp.spec_mode:
+        if not ctx.decide(m >= 1, getattr(node, "lineno", 0)):
+            E.raise_py(interp, "ValueError", "need at least one array to concatenate", node)
+    start = ctx.fresh_fun("block_start", z3.IntSort(), z3.IntSort())
+    block = ctx.fresh_fun("block_of", z3.IntSort(), z3.IntSort())
+    k, p = z3.Int("k!cc"), z3.Int("p!cc")
+    cnt = lambda j: parts.content.at(j).attrs["count"].term
+    val = lambda j: parts.content.at(j).attrs["value"]
+    total = start(m)
+    lbl = "extern:numpy.concatenate of numpy.repeat blocks: block k occupies positions start(k) .. start(k)+count_k-1 (start = prefix sums)"
+    ctx.assume(start(0) == 0, lbl)
+    ctx.assume(z3.ForAll([k], z3.Implies(z3.And(0 <= k, k < m), start(k + 1) == start(k) + cnt(k)), patterns=[start(k + 1)]), lbl)
+    ctx.assume(z3.ForAll([p], z3.Implies(z3.And(0 <= p, p < total),
+                                         z3.And(0 <= block(p), block(p) < m, start(block(p)) <= p, p < start(block(p) + 1))),
+                         patterns=[block(p)]), lbl)
+    # total = sum of the counts: tie to the Sum symbol of the count vector when the counts are a vector's entries
+    kc = z3.Int("k!canon")
+    for _nm, (_ty, _val) in list(ctx.inputs.items()):
+        if isinstance(_val, VList) and isinstance(_val.content, SymSeq) and isinstance(_val.content.elem_kind, (vec.T_IntT, vec.T_RealT)) \
+                and getattr(_val, "poly", None) is None:
+            try:
+                if z3.eq(z3.simplify(_val.content.at(kc).term), z3.simplify(cnt(kc))):
+                    vec.base_poly(interp, _val)
+            except Exception:
+                pass
+    for bid, b in list(getattr(ctx, "vec_bases", {}).items()):
+        try:
+            same = z3.eq(z3.simplify(b.content.at(kc).term), z3.simplify(cnt(kc))) and z3.eq(z3.simplify(b.content.length), z3.simplify(m))
+        except Exception:
+            same = False
+        if same:
+            ctx.assume(total == vec.sum_symbol(interp, ((bid, 1),)), "extern:numpy.concatenate: the total length is the sum of the block lengths")
+            break
+    r = VList(SymSeq(total, lambda q: val(block(q)), probe.attrs["value"].__class__ is VInt and vec.T_IntT(np=True) or vec.T_RealT(np=True)), "ndarray")
+    r.blocks = (m, start, block, cnt, val)
+    r.sid = f"unpacked@L{getattr(node, 'lineno', '?')}"
+    r.pointwise = True
+    r.poly = None
     return interp.born(r)
